@@ -22,7 +22,7 @@ CLAIMED = {
              text="Generated-input search: every run draws ranges per kind (on/off grid, near the kind maximum, zero/negative steps, empty/single) and compares the element sequence with an exact rational reference; failures are shrunk by proptest to a replay file."),
  "C16": dict(tech="proptest-generated arm lists (functions and match expressions, guards, tuple / enum / seven array patterns incl. spread with elements on both sides) in every order x all small arguments vs a reference arm evaluator; enumerated recurrences incl. 100 000-deep tail recursion", sec="§3 C16",
              text="Generated-input search over arm lists and their orders with a reference evaluator (first matching arm whose guard holds), recurrences against closed forms in two binding styles, broadcast over matrices, and the error side (arity, no arm, non-exhaustive match)."),
- "C17": dict(tech="proptest-generated transition systems rendered as state machines (guarded lists as one arm or split over two arms of the same state) vs reference simulation; result and state sequence (from [fsm] trace events) compared; ill-formed and non-terminating variants", sec="§3 C17",
+ "C17": dict(tech="proptest-generated transition systems rendered as state machines (guarded lists as one arm or split over two arms of the same state) vs reference simulation; result and state sequence (from [fsm] trace events) compared; ill-formed (wrong argument kind incl. sized vector kinds of the other orientation / length / element kind, undeclared targets, states without arm) and non-terminating variants", sec="§3 C17",
              text="Generated-input search over small machines (guarded branches with overlaps, loops that make progress, array-pattern states) and inputs; the visited state sequence reconstructed from trace events must equal the simulated one; ill-formed machines must be rejected and non-terminating ones stopped by the limit."),
  "C18": dict(tech="proptest-generated table pairs (0-2 shared columns, duplicate keys, five column kinds) x six joins in symbol and word form vs reference relational algebra compared as multisets; row/column selection in order", sec="§3 C18",
              text="Generated-input search over table pairs with many-to-many matches; the join result is compared as a multiset of rows over the union of columns including optional-kind promotion and holes; row selection compared in order."),
@@ -36,9 +36,9 @@ CLAIMED = {
              text="Round-trip generated-input search over the whole grammar and the repository's own corpus; any formatted text that fails to parse, parses to a different tree, or changes when formatted again is a violation, localised to the emitter at fault."),
  "C09": dict(tech="token-alphabet strings, Unicode stress strings, token-level mutants and character prefixes of valid programs/documents (corpus + grammar-generated); thorough tier adds a coverage-guided libFuzzer stage (parse_text) decided by the same oracle; validity predicate: no panic, tree or located report, ranges inside the input, format_error total, identical outcome on re-parse from another working directory; per-case watchdog", sec="§3 C09",
              text="Generated-input search over malformed and adversarial text with a validity predicate on the outcome; panics (with source location as signature), uninitialised/out-of-input ranges, non-determinism are violations; budget overruns are counted as timeouts, never judged."),
- "C10": dict(tech="programs from the shared generator woven into Mechdown documents (56 prose elements whose classification is fixed from the pinned tree, unnamed/named/disabled fences); metamorphic oracle: document snapshot == code-only snapshot; per-namespace isolation; error containment", sec="§3 C10",
+ "C10": dict(tech="programs from the shared generator woven into Mechdown documents (56 prose elements whose classification is fixed from the pinned tree, unnamed/named/disabled fences); metamorphic oracle: document snapshot == code-only snapshot; per-namespace isolation; containment of four kinds of error (undefined name, failing user-function call, kind mismatch, index out of range) placed in the middle of a namespace", sec="§3 C10",
              text="Metamorphic generated-input search: prose that is prose on its own, woven between code, must not change what the code computes; named fences evaluate in isolated interpreters; an error inside a named fence stays inside."),
- "C19": dict(tech="typed program generator; determinism (fresh interpreters, sibling thread), step() idempotence on pure programs, re-evaluation after input change vs from-scratch run; plan-step localisation for signatures", sec="§3 C19",
+ "C19": dict(tech="typed program generator + operator/function zoo (117 one-operator programs, operands inline and through variables); determinism (fresh interpreters, sibling thread), step() idempotence on pure programs, re-evaluation after input change vs from-scratch run; plan-step localisation for signatures", sec="§3 C19",
              text="Generated-input search over programs and re-evaluation schedules: the same program gives the same values in fresh interpreters, re-running the plan of a pure program changes nothing, and results after an input change equal a from-scratch evaluation."),
  "C20": dict(tech="generated include trees (4 files, 3 directories, every edge subset over 3 files as fixed cases, fences of varying marker/length/indent, look-alikes, missing targets, trailing-newline variants) materialised on disk vs a reference expander working on the item lists; watchdog for termination", sec="§3 C20",
              text="Generated-input search over include graphs and file layouts against a reference textual-substitution model; wrong expansion, undetected or falsely reported cycles, misnamed missing files, panics and hangs are violations."),
